@@ -173,6 +173,19 @@ WHAT = {
 }
 
 
+def run_sharded(ctx, cases, nshards=16):
+    from concurrent.futures import ThreadPoolExecutor
+    if not cases:
+        return []
+    n = max(1, min(nshards, (len(cases) + 9) // 10))
+    size = (len(cases) + n - 1) // n
+    parts = [cases[i * size:(i + 1) * size] for i in range(n)]
+    parts = [p for p in parts if p]
+    with ThreadPoolExecutor(len(parts)) as ex:
+        outs = list(ex.map(lambda p: ctx.run_harness("lock", p, shards=1, timeout=7200), parts))
+    return [x for o in outs for x in o]
+
+
 def run(ctx):
     ctx.trusted += [
         "Lean 4.33 kernel + leanchecker; axioms ⊆ {propext, Classical.choice, Quot.sound}",
@@ -194,7 +207,17 @@ def run(ctx):
         return ctx.finish(rule=RULE)
     cases, ncorpus = gen_cases(ctx)
     ctx.log("%d cases (%d corpus)" % (len(cases), ncorpus))
-    impl = ctx.run_harness("lock", cases, timeout=7200)
+    # a hang costs its deadline, so (1) use every core even for few cases, (2) run a first wave and stop
+    # there if the property is already violated (the verdict and the replay do not get better by waiting)
+    first = ncorpus + 160
+    impl = run_sharded(ctx, cases[:first])
+    early = any(classify(c, h) for c, h in zip(cases, impl))
+    if early:
+        ctx.log("the first wave (%d cases) already violates the property: not running the remaining %d" % (len(impl), len(cases) - len(impl)))
+        ctx.notes.append("stopped after the first wave")
+        cases = cases[:first]
+    else:
+        impl += run_sharded(ctx, cases[first:])
     model = ctx.run_driver(["lock" + c[4:] for c in cases])
     ctx.compare("lock", cases, [canon(h) for h in impl], model,
                 nontrivial=lambda c, a: any(shape(c)))
